@@ -81,6 +81,7 @@ structure Tables where
   xo : List (String × List Tok × Option (List Out)) := []
   gs : List (Tok × Option String) := []
   basis : List (Tok × Bool) := []
+  zero : List (Tok × Bool) := []
 
 def getPair : Sexp → Option (String × List Tok)
   | .list [.str n, ts] => do some (n, ← getToks ts)
@@ -117,6 +118,8 @@ def addEntry (t : Tables) : Sexp → Option Tables
     | _ => none
   | .list [.atom "basis", tok, b] => do
     some { t with basis := (← getTok tok, ← b.asBool?) :: t.basis }
+  | .list [.atom "zero", tok, b] => do
+    some { t with zero := (← getTok tok, ← b.asBool?) :: t.zero }
   | _ => none
 
 def getTables : Sexp → Option Tables
@@ -142,7 +145,8 @@ def Tables.params (t : Tables) : Params :=
     X := fun n ts => (find2 t.x n ts).join
     XO := fun n ts => (find2 t.xo n ts).join
     growShrink := fun tok => ((t.gs.find? (·.1 == tok)).map (·.2)).join
-    isBasis := fun tok => ((t.basis.find? (·.1 == tok)).map (·.2)).getD false }
+    isBasis := fun tok => ((t.basis.find? (·.1 == tok)).map (·.2)).getD false
+    intZero := fun tok => ((t.zero.find? (·.1 == tok)).map (·.2)).getD false }
 
 def getCompound : Sexp → Option Compound
   | .atom "skip" => some .skip
@@ -179,22 +183,19 @@ def handle (req : Sexp) : Sexp :=
       | some l => some (ok (l.map putToks))
       | none => some (.list [.atom "err"])
     | .list [.atom "hasvar", t] => do some (ok [ofBool (hasVar (← getTok t))])
-    | .list [.atom "resolve", env, fuel, ts] => do
+    | .list [.atom "resolve", env, ts] => do
       let b ← getEnv env
-      match solveTokens (resolveVar b.get (← fuel.asNat?)) (← getToks ts) with
-      | some r => some (ok (r.map putTok))
-      | none => some (.list [.atom "diverge"])
+      some (ok ((solveTokens b (← getToks ts)).map putTok))
     | .list [.atom "spec-resolve", env, fuel, ts] => do
       let b ← getEnv env
       match specResolve b (← fuel.asNat?) (← getToks ts) with
       | .toks r => some (ok (r.map putTok))
       | .invalid => some (.list [.atom "invalid"])
       | .outOfFuel => some (.list [.atom "outoffuel"])
-    | .list [.atom "cascade", tbl, env, fuel, .str prop, .str sh, ts] => do
+    | .list [.atom "cascade", tbl, env, .str prop, .str sh, ts] => do
       let t ← getTables tbl
       let b ← getEnv env
-      match cascadePending t.params b.get (← fuel.asNat?) prop sh (← getToks ts) with
-      | .diverge => some (.list [.atom "diverge"])
+      match cascadePending t.params b prop sh (← getToks ts) with
       | .invalid s => some (.list (.atom "invalid" :: s.map putTok))
       | .valid v => some (.list [.atom "valid", putVal v])
     | _ => none
